@@ -1,6 +1,8 @@
 import MockeryModel.Sem.Conc
 import MockeryLemmas.Conc
 import MockeryLemmas.ConcSeq
+import MockeryLemmas.ConcCount
+import MockeryLemmas.ConcExec
 import MockeryModel.Generated.TemplateFacts
 /-!
 # C05 — generated mocks are safe under concurrent use
@@ -61,6 +63,48 @@ theorem concurrent_use_is_safe (s0 s : St) (ops : Tid → List Op)
     ¬ Race s ∧ ∀ m, s.log m = s.hist m :=
   no_race_and_linearizable
     (inv_init s0 hheld hl (fun i => by rw [hprog i]; exact ops_disciplined (ops i)) hlin) r
+
+/-- **no call lost, none recorded twice**: the goroutines `ts` run operation sequences that never reset
+the log of method `m`; starting from empty logs, once all of them have finished – under every
+interleaving – the argument `v` occurs in the call log of `m` exactly as often as the operation
+sequences call `m` with `v`.  (With distinct arguments per call: every call is recorded exactly once and
+every record is the argument of exactly one call.) -/
+theorem no_call_lost_or_duplicated (ts : List Tid) (hnd : ts.Nodup) (s0 s : St) (ops : Tid → List Op)
+    (m : Loc) (v : Nat)
+    (hprog : ∀ i, (s0.th i).cont = progOfOps (ops i)) (hidle : ∀ j, j ∉ ts → ops j = [])
+    (hheld : ∀ i, (s0.th i).held = .none) (hl : ∀ i, (s0.th i).loaded = false)
+    (hempty : ∀ k, s0.log k = [] ∧ s0.hist k = [])
+    (hnoreset : ∀ i, ∀ o ∈ ops i, o ≠ .reset m ∧ ∀ ms, o = .resetAll ms → m ∉ ms)
+    (r : Reach s0 s) (hdone : ∀ i, (s.th i).cont = []) :
+    (s.log m).count v = (ts.map (fun i => (ops i).count (.call m v))).sum := by
+  have hsafe := concurrent_use_is_safe s0 s ops hprog hheld hl (fun k => by rw [(hempty k).1, (hempty k).2]) r
+  have hnc : NoClear m s0 := fun j => by rw [hprog j]; exact noClear_ops m (ops j) (hnoreset j)
+  have hid : IdleOutside ts s0 := fun j hj => by rw [hprog j, hidle j hj]; rfl
+  have hcons := (reach_conserves ts hnd m v r hnc hid).1
+  unfold total at hcons
+  rw [hsafe.2 m]
+  have h0 : (ts.map (fun j => pending m v (s0.th j).cont)).sum = (ts.map (fun i => (ops i).count (.call m v))).sum := by
+    congr 1
+    apply List.map_congr_left
+    intro j _
+    rw [hprog j, pending_ops]
+  have h1 : (ts.map (fun j => pending m v (s.th j).cont)).sum = 0 := by
+    have : ts.map (fun j => pending m v (s.th j).cont) = ts.map (fun _ => 0) := by
+      apply List.map_congr_left
+      intro j _
+      rw [hdone j]; rfl
+    rw [this]
+    exact sum_zeros ts
+  rw [h1, (hempty m).2, h0] at hcons
+  simpa using hcons
+
+/-- **the model the harness executes is the model of the theorems**: a step of the executable scheduler
+semantics (`Sem/ConcExec.lean`, what the driver runs next to the real stress test) is a step of the
+abstract machine, and every scheduler run is one of its executions – so `concurrent_use_is_safe` and
+`no_call_lost_or_duplicated` speak about everything the driver can observe. -/
+theorem scheduler_runs_are_executions (fuel seed : Nat) (s : XSt) :
+    (∀ i s', xstep s i = some s' → Step s.abs i s'.abs) ∧ Reach s.abs (run fuel seed s false 0).final.abs :=
+  ⟨fun i s' h => xstep_sound s s' i h, run_reach fuel seed s false 0⟩
 
 /-- **C05 (testify)**: the code the testify template emits declares no shared state of its own – the only
 fields of the struct types it declares are testify's own objects (`mock.Mock`, `*mock.Mock`, `*mock.Call`),
